@@ -31,6 +31,14 @@ int main(void)
 	jwt.key = &key;
 	key.kty = (jwk_key_type_t)t;
 	key.bits = nondet_size_t();
+	/* the key's descriptive attributes are arbitrary: the floor depends on none of them (a key that
+	 * names the very algorithm in its "alg" member is still measured) */
+	key.alg = (jwt_alg_t)nondet_uint();
+	__CPROVER_assume(key.alg >= JWT_ALG_NONE && key.alg < JWT_ALG_INVAL);
+	key.use = (jwk_pub_key_use_t)nondet_uint();
+	key.key_ops = (jwk_key_op_t)nondet_uint();
+	key.is_private_key = nondet_int();
+	key.curve[0] = nondet_char(); key.curve[1] = nondet_char(); key.curve[2] = '\0';
 	/* stated range: recorded sizes below 2^31 bits (the gate narrows size_t to int) */
 	__CPROVER_assume(key.bits < (1UL << 31));
 	if (key.kty == JWK_KEY_TYPE_OCT) {
@@ -66,6 +74,7 @@ int main(void)
 			PROP(r == 0, "C09: keys at or above the floor work (sign)");
 		REACH(r == 0 && jwt.alg == JWT_ALG_HS256 && key.bits == 256, "HS256 at exactly 256 bits signs");
 		REACH(r != 0 && jwt.alg == JWT_ALG_HS256 && key.bits == 248, "HS256 at 248 bits refused");
+		REACH(r != 0 && jwt.alg == JWT_ALG_HS256 && key.alg == JWT_ALG_HS256 && key.bits == 248, "HS256 key naming HS256 at 248 bits refused");
 		REACH(r == 0 && jwt.alg == JWT_ALG_RS256 && key.bits == 2048, "RS256 at 2048 signs");
 		REACH(r != 0 && jwt.alg == JWT_ALG_PS512 && key.bits == 2047, "PS512 at 2047 refused");
 		REACH(r == 0 && jwt.alg == JWT_ALG_ES512 && key.bits == 521, "ES512 at 521 signs");
